@@ -135,6 +135,12 @@ class DependentType(type):
     def __rand__(self, other):
         return Intersection[other, self]
 
+    def __or__(self, other):
+        return Union[self, other]
+
+    def __ror__(self, other):
+        return Union[other, self]
+
     __repr__ = __str__ = clsstring
 
 
